@@ -3,6 +3,7 @@ package keeper
 
 import (
 	"math/big"
+	"time"
 
 	sdk "github.com/pokt-network/pocket-core/types"
 	"github.com/pokt-network/pocket-core/x/apps/types"
@@ -10,13 +11,18 @@ import (
 )
 
 // VerifC20: inductive step — from an arbitrary consistent state (record 0 arbitrary, record 1 a
-// plain staked application, pool = sum of staked and unstaking tokens) every operation of the
+// staked or unstaking application, pool = sum of staked and unstaking tokens) every operation of the
 // application module keeps the pool equal to that sum and the supply equal to the sum of balances.
 func VerifC20() {
 	w := awNew()
 	w.install(w.arbitraryApp(0))
-	w.install(types.Application{Address: w.addrs[1], PublicKey: w.pks[1], Chains: []string{"0001"}, Status: sdk.Staked,
-		StakedTokens: sdk.NewInt(20000000000), MaxRelays: sdk.NewInt(100)})
+	second := types.Application{Address: w.addrs[1], PublicKey: w.pks[1], Chains: []string{"0001"}, Status: sdk.Staked,
+		StakedTokens: sdk.NewInt(20000000000), MaxRelays: sdk.NewInt(100)}
+	if v.Choice(2) == 1 { // the second application may be waiting to unstake
+		second.Status = sdk.Unstaking
+		second.UnstakingCompletionTime = time.Unix(v.Int64In(1000000, 2000000000), 0).UTC()
+	}
+	w.install(second)
 	w.fund(w.addrs[0])
 	w.fund(w.addrs[2])
 	w.credit(w.addrs[1], big.NewInt(5000000))
@@ -52,8 +58,8 @@ func VerifC20() {
 		w.k.UnjailApplication(w.ctx, w.addrs[0])
 	case 6:
 		w.k.unstakeAllMatureApplications(w.ctx)
-	case 7: // transfer record 0 to the key of address 2, as handleStake does for a transfer message
-		msg := types.MsgStake{PubKey: w.pks[2], Chains: nil, Value: sdk.ZeroInt()}
+	case 7: // transfer record 0 to a fresh key (address 2) or onto the second application's key, as handleStake does for a transfer message
+		msg := types.MsgStake{PubKey: w.pks[2-v.Choice(2)], Chains: nil, Value: sdk.ZeroInt()}
 		if cur, err := w.k.ValidateApplicationTransfer(w.ctx, w.pks[0], msg); err == nil {
 			v.Reach("transfer-accepted")
 			w.k.TransferApplication(w.ctx, cur, msg.PubKey)
